@@ -32,6 +32,14 @@ type World struct {
 	axioms      []string
 	boxDeclared map[string]bool
 	heapTypes   map[string]heapTypeInfo
+	heapElem    map[string]heapElemInfo
+}
+
+// heapElemInfo records the Go type stored in a heap and how many index levels precede it.
+type heapElemInfo struct {
+	t      types.Type
+	levels int    // 1: (Array Int T); 2: (Array Int (Array K T))
+	key    string // sort of the second-level index
 }
 
 type heapTypeInfo struct {
@@ -59,6 +67,7 @@ func NewWorld() *World {
 		heapSorts:   map[string]string{},
 		boxDeclared: map[string]bool{},
 		heapTypes:   map[string]heapTypeInfo{},
+		heapElem:    map[string]heapElemInfo{},
 	}
 }
 
@@ -318,6 +327,7 @@ func (w *World) FieldHeap(structT types.Type, idx int) string {
 	info := w.structInfoOf(structT)
 	f := info.st.Field(idx)
 	name := fmt.Sprintf("H_%s_%s", info.tname, f.Name())
+	w.heapElem[name] = heapElemInfo{t: f.Type(), levels: 1}
 	return w.heap(name, "(Array Int "+w.SortOf(f.Type())+")")
 }
 
@@ -325,6 +335,7 @@ func (w *World) FieldHeap(structT types.Type, idx int) string {
 func (w *World) CellHeap(t types.Type) string {
 	name := "Cell_" + shortTypeName(t)
 	w.heapTypes[name] = heapTypeInfo{"cell", t}
+	w.heapElem[name] = heapElemInfo{t: t, levels: 1}
 	return w.heap(name, "(Array Int "+w.SortOf(t)+")")
 }
 
@@ -332,6 +343,7 @@ func (w *World) CellHeap(t types.Type) string {
 func (w *World) ElemHeap(elem types.Type) string {
 	name := "Elem_" + shortTypeName(elem)
 	w.heapTypes[name] = heapTypeInfo{"elem", elem}
+	w.heapElem[name] = heapElemInfo{t: elem, levels: 2, key: "Int"}
 	return w.heap(name, "(Array Int (Array Int "+w.SortOf(elem)+"))")
 }
 
@@ -343,6 +355,7 @@ func (w *World) MapDomHeap(m *types.Map) string {
 	return w.heap("MapDom_"+w.mapKey(m), "(Array Int (Array "+w.SortOf(m.Key())+" Bool))")
 }
 func (w *World) MapValHeap(m *types.Map) string {
+	w.heapElem["MapVal_"+w.mapKey(m)] = heapElemInfo{t: m.Elem(), levels: 2, key: w.SortOf(m.Key())}
 	return w.heap("MapVal_"+w.mapKey(m), "(Array Int (Array "+w.SortOf(m.Key())+" "+w.SortOf(m.Elem())+"))")
 }
 func (w *World) MapLenHeap() string { return w.heap("MapLen", "(Array Int Int)") }
@@ -355,8 +368,6 @@ func (w *World) FAddr(structT types.Type, idx int) string {
 	info := w.structInfoOf(structT)
 	name := fmt.Sprintf("faddr_%s_%d", info.name, idx)
 	w.declFun(name, fmt.Sprintf("(declare-fun %s (Int) Int)", name))
-	w.declFun("fa_tag", "(declare-fun fa_tag (Int) Int)")
-	w.declFun("fa_base", "(declare-fun fa_base (Int) Int)")
 	return name
 }
 
@@ -386,6 +397,9 @@ func (w *World) Prelude() string {
 	for _, d := range w.structDecl {
 		b.WriteString(d + "\n")
 	}
+	b.WriteString("(declare-fun AllocBase () Int)\n(assert (> AllocBase 0))\n")
+	b.WriteString("(declare-fun fa_tag (Int) Int)\n(declare-fun fa_base (Int) Int)\n(declare-fun fa_root (Int) Int)\n")
+	b.WriteString("(define-fun oldaddr ((a Int)) Bool (or (and (> a 0) (<= a AllocBase)) (and (< a 0) (<= (fa_root a) AllocBase))))\n")
 	b.WriteString("(declare-fun strlen (Int) Int)\n")
 	b.WriteString("(declare-fun strcat (Int Int) Int)\n")
 	names := append([]string{}, w.funOrder...)
@@ -399,6 +413,27 @@ func (w *World) Prelude() string {
 	sort.Strings(hs)
 	for _, h := range hs {
 		fmt.Fprintf(&b, "(declare-fun %s_0 () %s)\n", h, w.heapSorts[h])
+	}
+	// well-formedness of the entry heap: every reference stored in it was allocated before entry
+	for _, h := range hs {
+		info, ok := w.heapElem[h]
+		if !ok {
+			continue
+		}
+		var acc func(x string) string
+		switch info.t.Underlying().(type) {
+		case *types.Pointer, *types.Map, *types.Chan:
+			acc = func(x string) string { return x }
+		case *types.Slice:
+			acc = func(x string) string { return "(s-arr " + x + ")" }
+		default:
+			continue
+		}
+		if info.levels == 1 {
+			fmt.Fprintf(&b, "(assert (forall ((a Int)) (! (<= %s AllocBase) :pattern ((select %s_0 a)))))\n", acc("(select "+h+"_0 a)"), h)
+		} else {
+			fmt.Fprintf(&b, "(assert (forall ((a Int) (k %s)) (! (<= %s AllocBase) :pattern ((select (select %s_0 a) k)))))\n", info.key, acc("(select (select "+h+"_0 a) k)"), h)
+		}
 	}
 	for _, a := range w.axioms {
 		b.WriteString(a + "\n")
